@@ -1910,7 +1910,7 @@ void expression_t::collect_possible_reads(set<symbol_t>& symbols, bool collectRa
         return;
 
     for (uint32_t i = 0; i < get_size(); i++)
-        get(i).collect_possible_reads(symbols);
+        get(i).collect_possible_reads(symbols, collectRandom);
 
     switch (get_kind()) {
     case IDENTIFIER: symbols.insert(get_symbol()); break;
